@@ -1,0 +1,17 @@
+//go:build verif
+
+package switchr
+
+import (
+	"github.com/mycoria/mycoria/frame"
+	"github.com/mycoria/mycoria/mgr"
+)
+
+// VerifHandleFrame synchronously runs the switch frame handler on one frame,
+// with the same panic recovery a switch worker has.
+// Verification hook: only compiled with the "verif" build tag.
+func (s *Switch) VerifHandleFrame(f frame.Frame) error {
+	return s.mgr.Do("verif", func(_ *mgr.WorkerCtx) error {
+		return s.handleFrame(f)
+	})
+}
